@@ -94,6 +94,13 @@ def gen_scenario(rng: random.Random, seed: int, cls: str) -> dict:
                             slow=rng.choice([0, 0.004, 0.02]))
         if sc["nnodes"] > 1 and rng.random() < 0.4:
             sc["coord_move"] = [round(rng.random() * 0.3, 3), rng.randrange(sc["nnodes"])]
+    if cls == "nodedown":
+        # the transaction coordinator's node dies for good at a random instant (its roles move to a survivor)
+        sc["nnodes"] = max(2, sc["nnodes"])
+        sc["node_down"] = round(rng.random() ** 2 * 0.4, 4)
+        sc["faults"] = dict(budget=0, slow=rng.choice([0.002, 0.01, 0.03]))
+        # more offset batches: the group-coordinator / transaction-coordinator distinction matters there
+        prog = [st for st in prog] + [["begin"], ["send_offsets", {"t-0": 9}], ["send", 0, 1], ["commit"]]
     if cls == "crash":
         k = rng.randrange(1, max(2, len(prog)))
         prog.insert(k, ["kill"])
@@ -123,7 +130,7 @@ def gen_scenario(rng: random.Random, seed: int, cls: str) -> dict:
         prog = [["begin"]] + pre + burst + [["sleep", rng.choice([0.05, 0.3])], ["commit"], ["abort"], ["begin"],
                                             ["send", rng.randrange(nparts), 1], ["commit"]]
     sc["program"] = prog
-    sc["strict"] = cls in ("plain", "faults", "crash", "crashany")      # only retriable faults are injected in these
+    sc["strict"] = cls in ("plain", "faults", "crash", "crashany", "nodedown")      # only retriable faults are injected in these
     return sc
 
 
